@@ -126,6 +126,19 @@ def run(rep, tier):
     if nsz < 5:
         rep.fault("R11.2: only %d bucket size writes found in the BM25 mutators" % nsz)
 
+    # a rejected insert (the id is already live) changes nothing: every write of index state in insert lies on the Vacant edge of the
+    # doc_tokens entry test.  total_tokens in particular feeds the average document length of every score; bumping it for an insert
+    # that is then refused skews all rankings until the next reload recomputes it.
+    dte = [e for e in ins.calls_named(r"dashmap::DashMap::<K, V, S>::entry$") if "doc_tokens" in ix.recv_fields(ins, e)]
+    vac = [m["Vacant"] for (sb, adt, m) in (ins.outcome_edges(dte[0].dest.l) if dte else []) if adt.endswith("mapref::entry::Entry") and "Vacant" in m]
+    from .anda import ATOMIC_WRITE_RX
+    writes = [e for e in ins.calls_named(ATOMIC_WRITE_RX.pattern)] + [e for (e, fld) in ix.state_mutations(ins, ["postings", "buckets"])]
+    early = [e for e in writes if not any(ins.dominates(v, e.block) for v in vac)]
+    rep.ob("R11.2", "no-effect-before-vacancy-test|insert", bool(dte) and bool(vac) and bool(writes) and not early,
+           "BM25Index::insert changes index state (%s) on a path that has not yet established that the id is new; an insert refused with "
+           "AlreadyExists would leave that change behind" % (sorted(ix.recv_fields(ins, early[0])) if early else ""),
+           early[0].where() if early else ins.file + ":%d" % ins.line)
+
     rep.rule("R11.3", "ranking is a total order: all sorts/selects over scored docs use compare_scored_docs (total_cmp + id); truncate after select_nth, then sort", floor=5)
     cmpf = prog.fn(BM + "::compare_scored_docs")
     rep.saw(cmpf, len(cmpf.events))
